@@ -63,9 +63,15 @@ CHECKS.update({
 })
 
 CHECKS.update({
- "C06": dict(cat="fault_enumeration", tech="property-based fault injection (proptest) on proofs of challenger circuits: forged non-fixed witness slots, re-executed by the real executors, proven and verified; native transcript as oracle",
-   text="Challenger histories (C05's generator) in the degree-4 Poseidon2 configurations are compiled, executed honestly, and one witness slot the verifier does not fix (permutation outputs, decomposition hints, recomposed values, intermediate ALU values) is forged in place or with re-execution of everything downstream; the forged traces are proven and verified. Accepted implies every sampled challenge equals the native transcript of the observed values. Rate outputs and ALU values are bound (attacks rejected); capacity outputs, decomposition hints and recomposed values are listed findings.",
-   note="Configurations limited to degree-4 Poseidon2 (BabyBear, KoalaBear) where the harness has prover table support. Internal permutation round columns are regenerated honestly.", ref="DESIGN.md §3 C06", engine="E2+E4"),
+ "C06": dict(cat="fault_enumeration", tech="property-based fault injection (proptest) on proofs of challenger circuits: forged non-fixed witness slots and forged permutation-table input cells, re-executed by the real executors, proven and verified; native transcript as oracle",
+   text="Challenger histories (C05's generator) in the 8 configurations the prover has permutation tables for (Poseidon2/Poseidon1; BabyBear/KoalaBear degree 4, KoalaBear base-field permutation in the quintic circuit, Goldilocks degree 2) are compiled and executed honestly; then (a) one witness slot the verifier does not fix is forged in place or with re-execution of everything downstream, or (b) one input cell of one permutation-table row is set to a prover-chosen value (executor fault hook) and everything downstream derived from it; verifier-fixed slots keep their values; the forged traces are proven and verified. Accepted implies every sampled challenge equals the native transcript of the observed values. ~5000 forged proofs per quick run. Capacity outputs travelling through witness slots (extension-degree challengers) and coefficients read by the standard recompose table are listed findings; the unconstrained capacity of the first table row was found here and repaired.",
+   note="Internal permutation round columns are regenerated honestly by the executors. A forged slot that no committed table carries (non-primitive output nobody reads) is discarded.", ref="DESIGN.md §3 C06, §7", engine="E2+E4"),
+ "C14": dict(cat="exploration", tech="differential property testing (proptest): packed proof inputs vs the serde image of an independent proof, plus single-position perturbation with native verification as oracle",
+   text="For generated proof shapes (uni-STARK and batch-STARK families incl. lookups, preprocessed columns, ZK/hiding PCS and hiding MMCS; BabyBear/KoalaBear degree 4; heights, widths, quotient chunks, FRI parameters and cap heights varied) the verifier circuit is built from proof A and fed with the packed vectors of an independent proof B: lengths must equal the documented flat lengths, every allocated target must hold B's documented element (target structures walked against B's serialised form), and changing any single position (public, private, Merkle sibling data) must make the run fail iff native verification rejects the same change. Quick: 400 shapes x 400 sampled positions; thorough: every position of 6000 shapes.",
+   note="Trusted: serde image of the proof types, native p3 verifiers. ZK batches restricted to one table (upstream prover deadlock); pure extension deltas on lifted base-field public inputs have no native counterpart and are evidence-only.", ref="DESIGN.md §3 C14, §7", engine="E4"),
+ "C15": dict(cat="fault_enumeration", tech="property-based structural fault injection (proptest + exhaustive single-alteration enumeration) on serialised proofs and companion data; optional libFuzzer target (harness/fuzz) over the same oracle",
+   text="Honest bundles of nine configurations (uni/batch/circuit-prover proofs; BabyBear, KoalaBear D4/D5, Goldilocks D2; preprocessed, lookups, ZK, non-primitive tables, multi-arity FRI) are serialised to JSON; the schema (variable-length arrays, count leaves, options) is probed from the deserialiser; EVERY array x {truncate, extend, empty}, EVERY option x toggle and EVERY count leaf x 21 edits is applied once (7983 cases), plus 8000 (thorough 200000) random 1-2 alteration combinations. Oracle: the pipeline allocate/verify_*_circuit/build/pack/set inputs/run never panics, never returns Ok where the native verifier rejects, and length changes of shape-validated vectors are rejected at build with InvalidProofShape.",
+   note="Size-like counts are clamped to avoid OOM/abort (the unclamped region is a listed finding). Listed findings are matched per (panic site, message class, leaf class). Native panic means no verdict for the weaker-circuit oracle.", ref="DESIGN.md §3 C15, §7", engine="E3"),
 })
 
 NOT_YET = {}
@@ -98,7 +104,7 @@ def main():
             "guard": "cargo feature `verif-hooks` (off by default) on the repo crates",
             "enable": "the harness crate's `hooks` feature forwards to `verif-hooks`; ./check always builds with --features hooks",
             "baseline_off_cmd": "cd /repo && cargo test --workspace --no-fail-fast --offline",
-            "source_commits": [],
+            "source_commits": ["8bb8c6d", "f2327e8", "f564978"],
             "add_only": True,
         },
         "engines": [
